@@ -310,7 +310,7 @@ var (
 
 // simplest first
 var c16numRank = []float64{0, 1, 2, 3, 4, -1, -2, 0.5, 1.5, 2.5, -1.5}
-var c16strRank = []string{"x", "a", "b", "aa", "bb", "aaa", "éé", "2020-01-01", "a@b.co", "a8098c1a-f86e-11da-bd1a-00112444be1e", ""}
+var c16strRank = []string{"x", "a", "b", "aa", "bb", "aaa", "é", "éé", "2020-01-01", "a@b.co", "a8098c1a-f86e-11da-bd1a-00112444be1e", ""}
 
 func c16isInt(k reflect.Kind) bool  { return k >= reflect.Int && k <= reflect.Int64 }
 func c16isUint(k reflect.Kind) bool { return k >= reflect.Uint && k <= reflect.Uint64 }
